@@ -476,6 +476,45 @@ func checkEnvLoader(rep *core.Report, r4 *core.RuleRun, fn *ssa.Function) {
 	}
 	r4.Check(hasPrefix, name+":prefix", getenv.Pos(), "variable name contains the constant VFLOW_", "environment variable name is not built from the VFLOW_ prefix")
 	r4.Check(hasYaml && tagIdx != nil, name+":tag", getenv.Pos(), "variable name derives from the field's own yaml tag", "environment variable name does not derive from the field's yaml tag")
+	// VFLOW_<KEY> is the yaml key in upper case with every '-' replaced by '_' (most keys have two or more hyphens)
+	{
+		upper, allHyphens, why := false, false, "no replacement of '-' by '_' on the way from the tag to the variable name"
+		for v := range sl {
+			c, ok := v.(*ssa.Call)
+			if !ok {
+				continue
+			}
+			f := c.Common().StaticCallee()
+			if f == nil || f.Pkg == nil || f.Pkg.Pkg.Path() != "strings" {
+				continue
+			}
+			isStr := func(a ssa.Value, want string) bool {
+				k, ok := a.(*ssa.Const)
+				return ok && k.Value != nil && k.Value.ExactString() == want
+			}
+			args := c.Common().Args
+			switch f.Name() {
+			case "ToUpper":
+				upper = true
+			case "ReplaceAll":
+				if len(args) == 3 && isStr(args[1], `"-"`) && isStr(args[2], `"_"`) {
+					allHyphens = true
+				}
+			case "Replace":
+				if len(args) == 4 && isStr(args[1], `"-"`) && isStr(args[2], `"_"`) {
+					if n, ok := ssaConstInt(args[3]); ok && n < 0 {
+						allHyphens = true
+					} else {
+						why = "strings.Replace with a non-negative count replaces only the first hyphen(s) of the key"
+					}
+				}
+			case "Map":
+				allHyphens = true // a per-rune mapping covers every occurrence
+			}
+		}
+		r4.Check(upper, name+":upper-case", getenv.Pos(), "key upper-cased", "the variable name is not the upper-cased key")
+		r4.Check(allHyphens, name+":every-hyphen", getenv.Pos(), "every '-' of the key becomes '_'", why+": settings whose key has more hyphens (stats-http-port, ipfix-tpl-cache-file, ...) are looked up under a name no one sets and silently keep their defaults")
+	}
 	// the tag text is the key only as long as the tag carries no option: `yaml:"key,omitempty"` still names the file key
 	// "key" for the YAML loader, but a loader that upper-cases the whole tag looks for VFLOW_KEY,OMITEMPTY
 	cuts := false
